@@ -10,6 +10,15 @@ import struct
 import time
 
 
+def as_int(x, default=-1):
+    """a TLC-representable integer, or `default` when the code handed back something else"""
+    if isinstance(x, bool):
+        return int(x)
+    if isinstance(x, int) and -2 ** 31 < x < 2 ** 31:
+        return x
+    return default
+
+
 def mag(n):
     """big-endian magnitude bytes of a natural, no leading zero, 0 -> []"""
     n = abs(n)
